@@ -824,7 +824,12 @@ func (r *c10Replica) qcTerm(q *hotstuffpb.QuorumCert) (string, bool) {
 	h := c10Hash(q.GetHash())
 	cl := r.hclass(h)
 	st, sbad := r.sigTerm(q.GetSig(), r.verifyAgainst(r.blockBytes(h)))
-	return fmt.Sprintf("(QC %s %d %s)", st, q.GetView(), cl), cl != "HGenesis" && sbad
+	if cl == "HGenesis" {
+		// the genesis QC is a valid certificate only for view 0 and without anything that restores to a signature
+		unsigned := c10Try(func() bool { return hotstuffpb.QuorumSignatureFromProto(q.GetSig()) == nil })
+		return fmt.Sprintf("(QC %s %d %s)", st, q.GetView(), cl), !(q.GetView() == 0 && unsigned)
+	}
+	return fmt.Sprintf("(QC %s %d %s)", st, q.GetView(), cl), sbad
 }
 
 func (r *c10Replica) oqcTerm(q *hotstuffpb.QuorumCert) (string, bool) {
@@ -1425,6 +1430,29 @@ func (x *c10Run) qcVariants(w *c10World, opt c10Opt, core bool) []c10QCV {
 	g := hotstuff.GetGenesis().Hash()
 	out = append(out, c10QCV{"genesis", hotstuffpb.QuorumCertToProto(w.qcs[0])},
 		c10QCV{"genesis-relabelled-view", &hotstuffpb.QuorumCert{Hash: g[:], View: 7}})
+	// genesis-hash QCs that carry something in the Sig field: only what restores to no signature at all is accepted
+	ident := append([]byte{0xc0}, make([]byte, 95)...) // the compressed point at infinity restores
+	bls := func(sig, parts []byte) *hotstuffpb.QuorumSignature {
+		return &hotstuffpb.QuorumSignature{Sig: &hotstuffpb.QuorumSignature_BLS12Sig{BLS12Sig: &hotstuffpb.BLS12AggregateSignature{Sig: sig, Participants: parts}}}
+	}
+	gsigs := []c10SigV{
+		{"ecdsa-zero-entries", c10Multi(crypto.NameECDSA, nil, nil)},
+		{"eddsa-one-junk-entry", c10Multi(crypto.NameEDDSA, []uint32{3}, [][]byte{{1, 2, 3}})},
+		{"bls-empty-bitfield", bls(ident, nil)},
+		{"bls-nonempty-bitfield", bls(ident, []byte{0x0d})},
+		{"bls-unrestorable", bls([]byte{1, 2, 3}, []byte{0x0d})},
+		{"oneof-unset", &hotstuffpb.QuorumSignature{}},
+		{"valid-quorum-for-b1", hotstuffpb.QuorumSignatureToProto(w.qcs[1].Signature())},
+	}
+	for i, gs := range gsigs {
+		if core && i != 0 && i != 3 {
+			continue
+		}
+		out = append(out, c10QCV{"genesis/" + gs.name, &hotstuffpb.QuorumCert{Sig: gs.sig, View: 0, Hash: g[:]}})
+		if !core {
+			out = append(out, c10QCV{"genesis-view7/" + gs.name, &hotstuffpb.QuorumCert{Sig: gs.sig, View: 7, Hash: g[:]}})
+		}
+	}
 	// targets: a block known in the mid-run state (b3 is the high QC's block there, b4 the newest), the orphan (never known)
 	type tgt struct {
 		name string
